@@ -5,19 +5,15 @@ Import ListNotations.
 
 Inductive impl_out := IOk (r : list Q) | IValueErr | IOtherErr.
 
-Record case1 := { k_strict : bool; k_m : pmode; k_d : direction; k_c : Q; k_cast : bool;
+Record case1 := { k_m : pmode; k_d : direction; k_c : Q; k_cast : bool;
                   k_arr : list Q; k_nout : nat; k_off : Z; k_out : impl_out }.
 
 Definition Qs_eq := Qsclose 0 0.
 
 (* model = implementation (outputs exactly, errors as an enum); and, on the
    inputs the theorems speak about, model = index-formula reference *)
-(* [strict]: the variant of resize_array that validates the offset range (proposed
-   fix for finding offset-out-of-range-accepted); measured by the harness *)
-Definition off_in_range (n n_out : nat) (off : Z) : bool := (n =? n_out)%nat || offset_ok n n_out off.
 Definition check1 (k : case1) : bool :=
-  let r := if k_strict k && negb (off_in_range (length (k_arr k)) (k_nout k) (k_off k)) then ValueErr
-           else resize1 (k_m k) (k_d k) (k_c k) (k_cast k) (k_arr k) (k_nout k) (k_off k) in
+  let r := resize1 (k_m k) (k_d k) (k_c k) (k_cast k) (k_arr k) (k_nout k) (k_off k) in
   match r, k_out k with
   | Ok r, IOk r' => Qs_eq r' r
   | ValueErr, IValueErr => true
@@ -35,21 +31,15 @@ Definition check1 (k : case1) : bool :=
 
 (* ---- N-d arrays ---- *)
 From Verif Require Import Lib.Axis C16.ModelNd.
-Record caseN := { n_strict : bool; n_m : pmode; n_d : direction; n_c : Q; n_cast : bool;
+Record caseN := { n_m : pmode; n_d : direction; n_c : Q; n_cast : bool;
                   n_ishape : list nat; n_arr : list Q; n_oshape : list nat; n_offs : list Z;
                   n_out : impl_out }.
 
 (* (1) the in-place N-d model = implementation (outputs exactly, errors as enum);
    (2) on admissible configurations the separable composition of 1-d resizes
        gives the same array *)
-Fixpoint offs_in_range (ish osh : list nat) (offs : list Z) : bool :=
-  match ish, osh, offs with
-  | a :: i', b :: o', f :: f' => off_in_range a b f && offs_in_range i' o' f'
-  | _, _, _ => true
-  end.
 Definition checkN (k : caseN) : bool :=
-  let r := if n_strict k && negb (offs_in_range (n_ishape k) (n_oshape k) (n_offs k)) then ValueErr
-           else resizeN (n_m k) (n_d k) (n_c k) (n_cast k) (n_ishape k) (n_arr k) (n_oshape k) (n_offs k) in
+  let r := resizeN (n_m k) (n_d k) (n_c k) (n_cast k) (n_ishape k) (n_arr k) (n_oshape k) (n_offs k) in
   match r, n_out k with
   | Ok r, IOk r' => Qs_eq r' r
   | ValueErr, IValueErr => true
@@ -69,8 +59,8 @@ Definition checkN (k : caseN) : bool :=
       else true).
 
 (* ---- ResizingOperator: range construction, offset, call / adjoint / inverse ---- *)
-From Verif Require Import C16.ModelOp.
-Record caseOp := { o_fixed : bool; o_adjguard : bool; o_m : pmode; o_c : Q;
+From Verif Require Import Gen.ResizeDiscr C16.ModelOp.
+Record caseOp := { o_adjguard : bool; o_m : pmode; o_c : Q;
                    o_dom : list (Q * Q * Z * (bool * bool));        (* min, max, n, nodes_on_bdry *)
                    o_nnew : list Z; o_off : list (option Z); o_flags : list (bool * bool);
                    o_rmin : list Q; o_rmax : list Q; o_rcs : list Q; o_offset : list Z;
@@ -79,19 +69,20 @@ Record caseOp := { o_fixed : bool; o_adjguard : bool; o_m : pmode; o_c : Q;
 
 Definition mk_axis (d : Q * Q * Z * (bool * bool)) : @axis Q :=
   let '(mn, mx, n, (bl, br)) := d in {| a_min := mn; a_max := mx; a_n := n; a_bl := bl; a_br := br |}.
-Fixpoint range_axes (fixed : bool) (doms : list (Q * Q * Z * (bool * bool))) (nnew : list Z)
+Fixpoint range_axes (doms : list (Q * Q * Z * (bool * bool))) (nnew : list Z)
          (offs : list (option Z)) (flags : list (bool * bool)) : list (@axis Q) :=
   match doms, nnew, offs, flags with
   | d :: ds, n :: ns, o :: os, (bl, br) :: fs =>
-      resize_axis fixed (mk_axis d) n o bl br :: range_axes fixed ds ns os fs
+      resize_axis (mk_axis d) n o bl br :: range_axes ds ns os fs
   | _, _, _, _ => []
   end.
-Fixpoint model_offsets (fixed : bool) (doms : list (Q * Q * Z * (bool * bool))) (nnew : list Z)
+Fixpoint model_offsets (doms : list (Q * Q * Z * (bool * bool))) (nnew : list Z)
          (offs : list (option Z)) : list Z :=
   match doms, nnew, offs with
   | d :: ds, n :: ns, o :: os =>
-      (if (n =? a_n (mk_axis d))%Z then 0%Z else Z.abs (fst (num_lr fixed (a_n (mk_axis d)) n o)))
-        :: model_offsets fixed ds ns os
+      (let nl := fst (num_lr (a_n (mk_axis d)) n o) in
+       if (n =? a_n (mk_axis d))%Z then 0%Z else if (a_n (mk_axis d) <? n)%Z then nl else (- nl)%Z)
+        :: model_offsets ds ns os
   | _, _, _ => []
   end.
 Definition optol : Q := 1 # 1000000000000.
@@ -103,10 +94,10 @@ Definition out_eq (a : outcome (list Q)) (b : impl_out) : bool :=
   end.
 
 Definition checkOp (k : caseOp) : bool :=
-  let axes := range_axes (o_fixed k) (o_dom k) (o_nnew k) (o_off k) (o_flags k) in
+  let axes := range_axes (o_dom k) (o_nnew k) (o_off k) (o_flags k) in
   let ish := map (fun d => Z.to_nat (a_n (mk_axis d))) (o_dom k) in
   let osh := map Z.to_nat (o_nnew k) in
-  let offs := model_offsets (o_fixed k) (o_dom k) (o_nnew k) (o_off k) in
+  let offs := model_offsets (o_dom k) (o_nnew k) (o_off k) in
   let linear := negb (pmode_eqb (o_m k) PConstant) || Qeq_bool (o_c k) 0 in
   Qsclose optol 0 (o_rmin k) (map a_min axes)
   && Qsclose optol 0 (o_rmax k) (map a_max axes)
